@@ -262,9 +262,20 @@ class Known(object):
         env = dict(ev)
         try:
             return bool(eval(self.match, {"__builtins__": {}, "abs": abs, "len": len,
-                                          "min": min, "max": max}, env))
+                                          "min": min, "max": max, "inset": _inset}, env))
         except Exception:
             return False
+
+
+_SETS = {}
+
+
+def _inset(name, *key):
+    """membership of an input tuple in a committed list of failing inputs (known/<name>.json)"""
+    if name not in _SETS:
+        with open(os.path.join(VERIF, "known", name + ".json")) as f:
+            _SETS[name] = set(tuple(x) for x in json.load(f))
+    return tuple(key) in _SETS[name]
 
 
 def load_known():
